@@ -457,6 +457,32 @@ func fsm1(c *Ctx) {
 			}
 		}
 	})
+	if removed {
+		// and on every way on from a found shortcut (back into the scan, or out of the function)
+		removalBlocks := map[*ssa.BasicBlock]bool{}
+		ir.Instrs(fn, func(in ssa.Instruction) {
+			if st, ok := in.(*ssa.Store); ok {
+				if b, f, isFA := ir.FieldAddr(st.Addr); isFA && f == "Transitions" && b == ssa.Value(recv) && isRemovalValue(st.Val, ssa.Value(recv)) {
+					removalBlocks[st.Block()] = true
+				}
+			}
+		})
+		for _, e := range ir.EdgesWhere(fn, test, true) {
+			if removalBlocks[e.To] {
+				continue
+			}
+			r := ir.ReachVia(e.From, e.To, removalBlocks, nil)
+			leaks := r[outerHdr]
+			for b := range r {
+				if ir.IsReturn(b) {
+					leaks = true
+				}
+			}
+			if leaks {
+				removed = false
+			}
+		}
+	}
 	c.Check(removed, key+":remove-shortcut", fn.Pos(), "the shortcut transition is removed", "the shortcut transition is not removed")
 }
 
